@@ -183,6 +183,27 @@ theorem commit_applies_in_order (ru : Rules ι δ) (cfg : Cfg δ)
     rfl
   exact ⟨by rw [a1, e], fun i => by rw [a3 i, e]⟩
 
+/-- … read per id ("in order" = the last acknowledged operation on an id wins): after a `/commit`
+a reader sees one copy of id `i` — the stored projection of the document of the last acknowledged
+add of `i` — if the last acknowledged operation on `i` is an add, and nothing if it is a delete or
+if no acknowledged operation touched `i` -/
+theorem commit_last_acked_wins (ru : Rules ι δ) (cfg : Cfg δ)
+    (hproj : ∀ d, cfg.proj (cfg.proj d) = cfg.proj d) (rs : List (Req ι δ)) (i : ι) :
+    copies (mechRun true ru cfg (rs ++ [.commit])).segs i =
+      match lastOp (rs.flatMap (ackedOps ru)) i with
+      | some (some d) => [cfg.proj d]
+      | _ => [] := by
+  rw [(commit_applies_in_order ru cfg hproj rs).2 i, spec_fold_get]
+  cases lastOp (rs.flatMap (ackedOps ru)) i with
+  | none => rfl
+  | some r => cases r <;> rfl
+
+/-- the two denotations differ in one call only: a request that does not reach `rollback()`
+performs the same library calls in both -/
+theorem denote_eq_of_no_rollback (ru : Rules ι δ) (h : Nat) (r : Req ι δ)
+    (hr : rollsBack ru r = false) : denote false ru h r = denote true ru h r := by
+  cases r <;> simp_all [denote, ingest, rollsBack]
+
 /-! ## both denotations, all sequences -/
 
 /-- an acknowledged request (`200 {"queued":k}`) appends exactly its `k` operations -/
@@ -356,6 +377,11 @@ example : noCommit [Req.add [(1, 10), (2, 20)], (.add [(0, 0)] : Req Nat (Nat ×
 example : abs (mechRun true ruN cfgN
     [Req.add [(1, 10), (2, 20)], .commit, .add [(1, 11)], .add [(0, 0)], .delete [2], .bulk [(2, 21)],
      .commit]).segs = [(2, (2, 21)), (1, (1, 11))] := by decide
+
+/-- non-vacuity of `commit_last_acked_wins`: all three outcomes occur -/
+example :
+    let ops := [Req.add [(1, 10), (2, 20)], .add [(1, 11)], .add [(0, 0)], .delete [2]].flatMap (ackedOps ruN)
+    lastOp ops 1 = some (some (1, 11)) ∧ lastOp ops 2 = some none ∧ lastOp ops 3 = none := by decide
 
 /-- non-vacuity of `rejected_*` / `acked_appended`: the response classes occur -/
 example : resp ruN (.bulk [(2, 20), (0, 0)] : Req Nat (Nat × Nat)) = .rejected ∧
